@@ -207,6 +207,83 @@ def run_main(main):
         sys.exit(3)
 
 
+# --------------------------------------------------------------------- dependencies between checks
+class _DepView:
+    """what a dependency's build() sees instead of the including check: text it records is forwarded with a prefix"""
+
+    class _Fwd(list):
+        def __init__(self, target, prefix):
+            super().__init__()
+            self.target, self.prefix = target, prefix
+
+        def append(self, s):
+            s = self.prefix + s
+            if s not in self.target:
+                self.target.append(s)
+
+    def __init__(self, chk, dep):
+        self._chk = chk
+        pre = '[contract of %s, re-decided here] ' % dep
+        self.bounds = self._Fwd(chk.bounds, pre)
+        self.outside = self._Fwd(chk.outside, pre)
+        self.notes = self._Fwd(chk.notes, pre)
+        self.assumptions = self._Fwd(chk.assumptions, pre)
+        self.stubs = chk.stubs
+        self.summaries = chk.summaries
+        self.extra = chk.extra
+        self.breach_fallback = {}
+        self._pref = 'dep-%s/' % dep
+
+    def __getattr__(self, k):
+        return getattr(self._chk, k)
+
+    # a dependency written in the direct style (ring.py: chk.explore / chk.add in the calling process)
+    def explore(self, name, *a, **k):
+        return self._chk.explore(self._pref + name, *a, **k)
+
+    def add(self, name, *a, **k):
+        return self._chk.add(self._pref + name, *a, **k)
+
+
+def include_dependency(chk, tasks, dep, only, why):
+    """Property `chk.pid` is stated in terms of routines whose contract is discharged by the check of property `dep` (e.g. ECDH uses
+    ScalarMult).  So that a change to such a routine is decided by *this* check too -- not only by the one that owns the contract --
+    the task groups `only` of the dependency's check are built and run as part of this one; their obligations are named dep-<ID>/... and a
+    failure is a violation of this property (its claim rests on the broken contract)."""
+    import importlib
+    mod = importlib.import_module('checks.' + dep.lower())
+    view = _DepView(chk, dep)
+    dep_tasks = mod.build(view, only)
+    pref = 'dep-%s/' % dep
+
+    def wrap(fn):
+        def task(sub):
+            fn(sub)
+            for o in sub.obls:
+                o.name = pref + o.name
+        return task
+    for name, fn in dep_tasks:
+        tasks.append((pref + name, wrap(fn)))
+    if view.breach_fallback:
+        fb = getattr(chk, 'breach_fallback', None) or {}
+        fb.update({pref + k: v for k, v in view.breach_fallback.items()})
+        chk.breach_fallback = fb
+    chk.extra.setdefault('dependencies_rechecked', []).append({'property': dep, 'task_groups': only or 'all', 'tasks': len(dep_tasks), 'why': why})
+    return dep_tasks
+
+
+def include_ring_dependency(chk, tasks, dep, ringname, parts, why):
+    """same for the ring checks C01 / C02, whose obligation families are functions of checks.ring: each listed family becomes one task"""
+    from . import ring as R
+    prog = load_prog()
+    gl = load_globals(prog)
+    for part in parts:
+        def task(sub, part=part):
+            getattr(R, part)(_DepView(sub, dep), prog, R.Ring(ringname), gl)
+        tasks.append(('dep-%s/%s' % (dep, part), task))
+    chk.extra.setdefault('dependencies_rechecked', []).append({'property': dep, 'task_groups': ' '.join(parts), 'tasks': len(parts), 'why': why})
+
+
 # --------------------------------------------------------------------- check driver
 class Check:
     def __init__(self, pid, level='model_checking'):
